@@ -129,7 +129,9 @@ fn main() {
             ctx.from_case = from;
             ctx.cur_file = Some(out.with_extension("cur"));
             ctx.out_file = Some(out.clone());
-            crate::core::watchdog::start(def.cpu_budget_ms);
+            // (sanitizer builds are an order of magnitude slower: the budget can be scaled)
+            let scale: u64 = std::env::var("VV_CPU_BUDGET_SCALE").ok().and_then(|v| v.parse().ok()).unwrap_or(1);
+            crate::core::watchdog::start(def.cpu_budget_ms * scale);
             (def.run)(&mut ctx);
             ctx.flush();
             let _ = std::fs::write(out.with_extension("done"), "1");
